@@ -34,6 +34,7 @@ import (
 )
 
 type caseDef struct {
+	noClose    bool // levels udpnc / tcpnc: the application's onInactive callback only takes note, it does not close the connection
 	level      string
 	period     time.Duration
 	maxRetries int // -1 = plain inactivity monitor
@@ -115,6 +116,13 @@ func runConnUDP(t *testing.T, c caseDef) []string {
 			}
 			closed = true
 			log.add("close")
+			if c.noClose {
+				// the keep-alive has given up and the connection stays open: nothing of its last ping may be left behind
+				if sz := cc.VerifSizes(); sz.Mid != 0 || sz.Token != 0 {
+					log.add(fmt.Sprintf("leak-pending-ping mid=%d token=%d", sz.Mid, sz.Token))
+				}
+				return
+			}
 			_ = cc.Close()
 		}
 		// the option is applied ONCE; every connection made from it asks its factory for a monitor, as a server does for
@@ -265,6 +273,12 @@ func runConnTCP(t *testing.T, c caseDef) []string {
 			}
 			closed = true
 			log.add("close")
+			if c.noClose {
+				if sz := cc.VerifSizes(); sz.Token != 0 {
+					log.add(fmt.Sprintf("leak-pending-ping token=%d", sz.Token))
+				}
+				return
+			}
 			_ = cc.Close()
 		}
 		var factory func() tcpclient.InactivityMonitor
@@ -418,11 +432,11 @@ func TestC18(t *testing.T) {
 			for i := range res {
 				res[i] = "unit-level cases run in harness/c18unit"
 			}
-		case "udp":
+		case "udp", "udpnc":
 			lp.PoolTraceBegin()
 			res = runConnUDP(t, *cur)
 			lp.PoolTraceEnd(fmt.Sprintf("c18 udp %d-ops", len(cur.ops)))
-		case "tcp":
+		case "tcp", "tcpnc":
 			lp.PoolTraceBegin()
 			res = runConnTCP(t, *cur)
 			lp.PoolTraceEnd(fmt.Sprintf("c18 tcp %d-ops", len(cur.ops)))
@@ -453,7 +467,7 @@ func TestC18(t *testing.T) {
 			if f[3] != "-" {
 				n, _ = strconv.Atoi(f[3])
 			}
-			cur = &caseDef{level: f[1], period: time.Duration(p), maxRetries: n}
+			cur = &caseDef{level: f[1], period: time.Duration(p), maxRetries: n, noClose: strings.HasSuffix(f[1], "nc")}
 		case len(f) == 1 && f[0] == "end":
 			flush(w)
 			fmt.Fprintln(w, "end")
